@@ -6,6 +6,9 @@ import (
 	"reflect"
 	"strings"
 
+	"go.mongodb.org/mongo-driver/bson"
+	"go.mongodb.org/mongo-driver/bson/primitive"
+
 	"github.com/256dpi/lungo/bsonkit"
 )
 
@@ -13,6 +16,32 @@ const (
 	supported = "supported"
 	ignored   = "ignored"
 )
+
+// detach returns a deep copy of a stored value (documents, arrays and binary
+// data are copied) so that values handed back to the caller never share memory
+// with the stored documents.
+func detach(v interface{}) interface{} {
+	switch value := v.(type) {
+	case bson.D:
+		d := make(bson.D, len(value))
+		for i, e := range value {
+			d[i] = bson.E{Key: e.Key, Value: detach(e.Value)}
+		}
+		return d
+	case bson.A:
+		a := make(bson.A, len(value))
+		for i, e := range value {
+			a[i] = detach(e)
+		}
+		return a
+	case primitive.Binary:
+		data := make([]byte, len(value.Data))
+		copy(data, value.Data)
+		return primitive.Binary{Subtype: value.Subtype, Data: data}
+	default:
+		return v
+	}
+}
 
 func ensureContext(ctx context.Context) context.Context {
 	// check context
